@@ -191,6 +191,9 @@ pub enum Step {
     DeliverCEv { client: usize, chan: u16, idx: u16 },
     DropCEv { client: usize, chan: u16, idx: u16 },
     Disconnect { client: usize },
+    /// the backend reads everything the client still had in flight and notices the closed connection in the same pass:
+    /// the messages are handed to `RepliconServer`, then the client entity is despawned, before the next server frame
+    DisconnectLate { client: usize },
     Connect { client: usize },
     Authorize { client: usize },
     /// One legal history made frequent: create traffic on `slot` (structural change, mutation, event), hand over only the
